@@ -10,14 +10,52 @@ thread is still alive.  The clauses below are written from the statement; they a
 namespace Frappy.Spec.C13
 open Frappy.Poller
 
+/-- what a module was told from outside about its poll interval (by a client changing the `pollinterval` parameter,
+or by driver code switching fast polling), with the time at which it was told -/
+inductive Cmd
+  | setInterval (t : Nat) (v : Nat)                  -- `pollinterval := v`
+  | setFast (t : Nat) (flag : Bool) (v : Nat)        -- `setFastPoll(flag, v)`
+  deriving DecidableEq, Repr, Inhabited
+
+def Cmd.time : Cmd → Nat
+  | .setInterval t _ => t
+  | .setFast t _ _ => t
+
+/-- what a module has been told so far: its poll interval, whether fast polling is switched on, and the fast interval -/
+structure IvState where
+  pollinterval : Nat
+  fast : Bool
+  fastI : Nat
+  deriving DecidableEq, Repr, Inhabited
+
+/-- **the interval the module is to be polled with**: the fast interval while fast polling is switched on, the
+module's poll interval — as it is now, whenever it was set — otherwise -/
+def IvState.inForce (s : IvState) : Nat := if s.fast then s.fastI else s.pollinterval
+
+def cmdStep (s : IvState) : Cmd → IvState
+  | .setInterval _ v => { s with pollinterval := v }
+  | .setFast _ flag v => { s with fast := flag, fastI := v }
+
+/-- `(t, i)`: from the command at time `t` on the module is to be polled with interval `i` -/
+def intervalsFrom (s : IvState) : List Cmd → List (Nat × Nat)
+  | [] => []
+  | c :: cs => (c.time, (cmdStep s c).inForce) :: intervalsFrom (cmdStep s c) cs
+
 /-- what is known about one module of the thread -/
 structure ModInfo where
   enabled : Bool
   slow : Nat
   polled : List Nat
-  /-- `(t, i)`: from time `t` on `PollInfo.interval = i`; ascending in `t`, the first entry is the configured one -/
-  intervals : List (Nat × Nat)
+  /-- the module's poll interval when the thread started -/
+  pollinterval : Nat
+  /-- the commands it was given since, in order of time -/
+  cmds : List Cmd
   deriving Repr, Inhabited
+
+/-- `(t, i)`: from time `t` on the module is to be polled with interval `i`; ascending in `t`, the first entry is the
+configured one.  Computed from what the module was *told* — not from the poller's own bookkeeping. -/
+def ModInfo.intervals (mi : ModInfo) : List (Nat × Nat) :=
+  (0, mi.pollinterval) :: intervalsFrom ⟨mi.pollinterval, false, 0⟩ mi.cmds
 
 structure Trace where
   mods : List ModInfo
@@ -173,7 +211,7 @@ theorem slowRefreshB_iff (tr : Trace) : slowRefreshB tr = true ↔ SlowRefreshBo
 /-! ## statements about the model's own traces (used by the theorems) -/
 
 /-- what is known from outside about a module of the model -/
-def infoOf (m : Mod) : ModInfo := ⟨m.enabled, m.slow, m.polled, [(0, m.interval)]⟩
+def infoOf (m : Mod) : ModInfo := ⟨m.enabled, m.slow, m.polled, m.interval, []⟩
 
 /-- the observable trace of a model run that started in `σ` and made the calls `evs` -/
 def traceOf (σ : PollState) (evs : List Event) (loopStart tEnd eps : Nat) : Trace :=
